@@ -23,7 +23,13 @@ inductive Exc
   | keyError        -- TCP_STATUSES[status] / tmap[kind]
   | indexError
   | structError     -- struct.unpack('<4I', …) on a string that is not 16 bytes long
-  | fileNotFound    -- open()/listdir() of a missing file
+  | fileNotFound    -- open()/listdir() of a missing file (FileNotFoundError, ENOENT)
+  | ipv6Unsupported -- `_Ipv6UnsupportedError` (internal: caught by process_inet, never leaves it)
+  | processLookup   -- ProcessLookupError (ESRCH)
+  | permissionError -- PermissionError (EACCES, EPERM)
+  | osError (errno : Nat)   -- any other OSError, by errno number
+  | accessDenied    -- psutil.AccessDenied (wrap_exceptions: PermissionError)
+  | noSuchProcess   -- psutil.NoSuchProcess (wrap_exceptions: ProcessLookupError)
   deriving DecidableEq, Repr
 
 /-- `laddr` / `raddr` of a returned tuple -/
@@ -61,6 +67,9 @@ structure Cfg where
   inodesExtend : Bool      -- get_all_inodes merges the per-process lists (true) or `dict.update`s (false)
   unixPathRest : Bool      -- process_unix takes the rest of the line as path (true) or
                            -- `tokens[-1] if len(tokens) == 8 else ''` (false)
+  -- host facts (like `littleEndian`): the Python the code runs on
+  ntop6Fails : Bool := false   -- `socket.inet_ntop(AF_INET6, …)` raises ValueError (Python built without IPv6)
+  supportsV6 : Bool := true    -- `_common.supports_ipv6()`
   -- `_, laddr, raddr, status, _, _, _, _, _, inode = line.split()[:10]`
   inetN : Nat
   iLaddr : Nat
@@ -112,8 +121,11 @@ def decodeAddress (cfg : Cfg) (addr : Bytes) (family : Nat) : Except Exc Addr :=
           let packed := if cfg.littleEndian then raw.reverse else raw
           if packed.length = 4 then .ok (.ip packed (p + 1)) else .error .valueError
         else
-          if raw.length = 16 then
-            .ok (.ip (if cfg.littleEndian then swap32 raw else raw) (p + 1))
+          if raw.length = 16 then                  -- struct.unpack('<4I', ip)
+            if cfg.ntop6Fails then                 -- inet_ntop raises ValueError:
+              -- `if not supports_ipv6(): raise _Ipv6UnsupportedError` else re-raise
+              if cfg.supportsV6 then .error .valueError else .error .ipv6Unsupported
+            else .ok (.ip (if cfg.littleEndian then swap32 raw else raw) (p + 1))
           else .error .structError
   | _ => .error .valueError
 
@@ -208,9 +220,11 @@ def processInetLine (cfg : Cfg) (family type : Nat) (inodes : Inodes) (filterPid
         | .error e => .error e
         | .ok status =>
           match decodeAddress cfg laddr family with
+          | .error .ipv6Unsupported => .ok none          -- except _Ipv6UnsupportedError: continue
           | .error e => .error e
           | .ok la =>
             match decodeAddress cfg raddr family with
+            | .error .ipv6Unsupported => .ok none
             | .error e => .error e
             | .ok ra => .ok (some ⟨fd, family, type, la, ra, status, pid⟩)
   | _, _, _, _ => .error .indexError      -- not reachable: the indices are below `inetN`
@@ -376,5 +390,119 @@ def netConnections (cfg : Cfg) (fs : ProcFs) (kind : String) (pid : Option Nat) 
     Except Exc (List Row) :=
   if kind ∉ cfg.connKinds then .error .valueError
   else retrieve cfg fs kind pid
+
+/-! ### descriptor races and errors: `os.listdir` / `os.readlink` may fail
+
+  The functions above are the error-free core (every listed descriptor is either read or silently
+  vanished). What follows transcribes the same code with every `OSError` outcome of the two
+  system calls explicit. `Proofs/C11Scan.lean` shows that, whenever no error escapes, the result is
+  the core's result on the file system with the failing descriptors / processes erased. -/
+
+/-- errno values `os.readlink` / `os.listdir` can fail with, as far as the code tells them apart -/
+inductive Errno
+  | enoent | esrch | einval | enametoolong | eacces | eperm
+  | other (n : Nat)          -- EIO, EMFILE, ENOMEM, … (by number)
+  deriving DecidableEq, Repr
+
+/-- the Python exception class `OSError(errno)` is raised as -/
+def Exc.ofErrno : Errno → Exc
+  | .enoent => .fileNotFound
+  | .esrch => .processLookup
+  | .eacces => .permissionError
+  | .eperm => .permissionError
+  | .einval => .osError 22
+  | .enametoolong => .osError 36
+  | .other n => .osError n
+
+/-- what `readlink(f"{procfs}/{pid}/fd/{fd}")` gives -/
+inductive LinkRes
+  | ok (target : Bytes)
+  | err (e : Errno)
+  deriving DecidableEq, Repr
+
+abbrev FdEntryE := Nat × LinkRes
+/-- what `os.listdir(f"{procfs}/{pid}/fd")` gives, each name with the outcome of its readlink -/
+abbrev ListRes := Except Errno (List FdEntryE)
+
+/-- the `for fd in os.listdir(...)` loop of `get_proc_inodes`, `m` = the `defaultdict` so far -/
+def procLoopE (pid : Nat) : List FdEntryE → Inodes → Except Exc Inodes
+  | [], m => .ok m
+  | (fd, r) :: rest, m =>
+    match r with
+    | .err .enoent => procLoopE pid rest m          -- except (FileNotFoundError, ProcessLookupError): continue
+    | .err .esrch => procLoopE pid rest m
+    | .err .einval => procLoopE pid rest m          -- not a link: continue
+    | .err .enametoolong => procLoopE pid rest m    -- debug(err); continue
+    | .err e => .error (Exc.ofErrno e)              -- raise
+    | .ok target =>
+      if startsWith socketPrefix target then
+        procLoopE pid rest (m.append ((target.drop 8).dropLast) (pid, fd))
+      else procLoopE pid rest m
+
+/-- `NetConnections.get_proc_inodes(pid)` with the outcome of `os.listdir` and of every `readlink` -/
+def getProcInodesE (pid : Nat) (l : ListRes) : Except Exc Inodes :=
+  match l with
+  | .error e => .error (Exc.ofErrno e)               -- os.listdir raised
+  | .ok fds => procLoopE pid fds []
+
+/-- `except (FileNotFoundError, ProcessLookupError, PermissionError): continue` of get_all_inodes -/
+def allCaught : Exc → Bool
+  | .fileNotFound => true
+  | .processLookup => true
+  | .permissionError => true
+  | _ => false
+
+/-- `NetConnections.get_all_inodes()`: the loop over `pids()`, `m` = `inodes` so far -/
+def allLoopE (cfg : Cfg) : List (Nat × ListRes) → Inodes → Except Exc Inodes
+  | [], m => .ok m
+  | (pid, l) :: rest, m =>
+    match getProcInodesE pid l with
+    | .ok pi => allLoopE cfg rest (mergeProc cfg m pi)
+    | .error x => if allCaught x then allLoopE cfg rest m else .error x
+
+def getAllInodesE (cfg : Cfg) (procs : List (Nat × ListRes)) : Except Exc Inodes :=
+  allLoopE cfg procs []
+
+/-- what psutil reads, with the failures of the two system calls -/
+structure ProcFsE where
+  net : String → Option Bytes
+  procs : List (Nat × ListRes)
+
+/-- `NetConnections.retrieve(kind, pid=None)` -/
+def retrieveE (cfg : Cfg) (fs : ProcFsE) (kind : String) (pid : Option Nat) :
+    Except Exc (List Row) :=
+  let inodes? : Except Exc Inodes :=
+    match pid with
+    | some p =>
+      match fs.procs.lookup p with
+      | some l => getProcInodesE p l
+      | none => .error .fileNotFound                 -- no `/proc/<pid>/fd` at all
+    | none => getAllInodesE cfg fs.procs
+  match inodes? with
+  | .error e => .error e
+  | .ok inodes =>
+    if pid.isSome && inodes.isEmpty then .ok []          -- no connections for this process
+    else
+      match cfg.tmap.lookup kind with
+      | none => .error .keyError
+      | some entries => retrieveEntries cfg ⟨fs.net, []⟩ inodes pid entries []
+
+/-- `_pslinux.wrap_exceptions` around `Process.net_connections` (the process' own `stat` file is
+    there and does not say `Z`: zombie / vanished-process handling is C03's subject) -/
+def wrapExceptions : Except Exc (List Row) → Except Exc (List Row)
+  | .error .permissionError => .error .accessDenied
+  | .error .processLookup => .error .noSuchProcess
+  | r => r                    -- FileNotFoundError with `/proc/<pid>/stat` present is re-raised
+
+/-- the public functions: `_check_conn_kind(kind)`, then `_pslinux.net_connections(kind)` or the
+    `@wrap_exceptions` method `Process.net_connections(kind)` (whose `_raise_if_not_alive()` finds
+    `/proc/<pid>` present) -/
+def netConnectionsE (cfg : Cfg) (fs : ProcFsE) (kind : String) (pid : Option Nat) :
+    Except Exc (List Row) :=
+  if kind ∉ cfg.connKinds then .error .valueError
+  else
+    match pid with
+    | none => retrieveE cfg fs kind none
+    | some p => wrapExceptions (retrieveE cfg fs kind (some p))
 
 end Psutil.C11
